@@ -478,7 +478,8 @@ def _clone(v):
 class Scenario(object):
     """Finite facts a path depends on."""
     def __init__(self, name='', bind=None, axioms=None, inline=None, inline_props=None, max_depth=3, self_cls=None,
-                 args=None, unroll=None, oracle=None, forward_stores=True, model_del=True, join_unknown=False):
+                 args=None, unroll=None, oracle=None, forward_stores=True, model_del=True, join_unknown=False,
+                 decide_filters=False):
         self.name = name
         self.bind = bind or {}            # dotted path -> Val
         self.axioms = axioms or {}        # normalised condition text -> bool
@@ -492,6 +493,7 @@ class Scenario(object):
         self.forward_stores = forward_stores   # False for parse methods: attribute stores go through property setters
         self.model_del = model_del        # del buf[:n] rebinds buf to the remaining octets (False for reader-sequence extraction)
         self.join_unknown = join_unknown  # undecided `if`: run both arms and join the normal exits (call/store sets are united)
+        self.decide_filters = decide_filters   # comprehension filters the scenario decides are applied (True: dropped, False: empty result)
 
 
 BUILTIN_TYPES = {'str', 'bytes', 'bytearray', 'int', 'bool', 'list', 'tuple', 'set', 'dict', 'NoneType', 'datetime',
@@ -819,6 +821,8 @@ class Frame(object):
 
     def st_For(self, node, st):
         vals, colltext = self._iter_values(node.iter, st, self._bname(node))
+        if vals is not None and isinstance(node.target, (ast.Tuple, ast.List)) and any(isinstance(v, EachV) for v in vals):
+            vals = None     # a summarised segment of unknown length cannot be destructured element-wise: summarise this loop too
         if vals is not None:
             cur = [(st, 'normal')]
             for v in vals:
@@ -1305,7 +1309,13 @@ class Frame(object):
             vt = self._assign_loopvars(g.target, s2, node, self._bname(g))
             st.bound[self._bname(g)] = it.split(' if ')[0]
             s2.bound[self._bname(g)] = it.split(' if ')[0]
-            conds = [self.cond_text(c, s2) for c in g.ifs]
+            conds = []
+            for c in g.ifs:
+                d = self.decide(c, s2) if self.sc.decide_filters else None
+                if d is False:
+                    return ListV([], 'set' if br == '{}' else 'list')      # the scenario says no element passes the filter
+                if d is None:
+                    conds.append(self.cond_text(c, s2))
             gens.append((vt, it, conds))
         if isinstance(node, ast.DictComp):
             eltv = None
@@ -1554,6 +1564,11 @@ class Frame(object):
                     return Const(None)
                 if meth == 'extend' and len(args) == 1 and isinstance(args[0], ListV):
                     recv.elems.extend(args[0].elems)
+                    record(ftext)
+                    return Const(None)
+                if meth == 'extend' and len(args) == 1 and isinstance(args[0], EachV):
+                    # L.extend(<comprehension>) == for x in ..: L.append(elt): the same summary element a loop gets
+                    recv.elems.append(args[0])
                     record(ftext)
                     return Const(None)
             if isinstance(recv, Bytes) and meth == 'join' and len(args) == 1:
